@@ -109,6 +109,19 @@ def oracle_compress(m, tol, mode):
             M = Ac.transpose(1, 0, 2).reshape(Ac.shape[1], -1); G = M @ M.conj().T
         if np.abs(G - np.identity(G.shape[0])).max() > 1e-8:
             return f'site tensor {i} of the compressed state is not an isometry ({mode}-canonical form expected)'
+    # the first truncated bond keeps exactly the Schmidt values prescribed by the tolerance rule
+    if L >= 2:
+        d = len(m.qd)
+        cut = 1 if mode == 'left' else L - 1
+        M = (v0 / n0).reshape(d ** cut, -1)
+        sv = np.linalg.svd(M, compute_uv=False)
+        w = np.sort(sv ** 2)                      # ascending weights
+        cum = np.cumsum(w)
+        # number kept by the rule; undecidable when a cumulative weight is within rounding of tol
+        if not np.any(np.abs(cum - tol) < 1e-9):
+            keep = int(np.sum(cum > tol))
+            if D1[cut] != keep and keep >= 1:
+                return f'bond {cut} (the first truncated one) keeps {D1[cut]} Schmidt values, the tolerance rule prescribes {keep}'
     err = np.linalg.norm(nrm * scale * v1 - v0)
     expect = nrm * np.sqrt(max(0.0, 1 - scale ** 2))
     if abs(err - expect) > 1e-7 * max(1, n0):
@@ -132,8 +145,49 @@ def oracle_from_vector(d, ns, v, tol):
     return None
 
 
+def degenerate_vector(rng, d, ns):
+    """vectors whose Schmidt spectra contain groups of *bitwise equal* values (GHZ-like, Bell pairs, stair-cases)"""
+    n = d ** ns
+    v = np.zeros(n)
+    k = int(rng.integers(0, 3))
+    if k == 0:      # GHZ-like: |00..0> + |11..1> + ...
+        for x in range(d):
+            v[sum(x * d ** j for j in range(ns))] = 1.0
+    elif k == 1:    # one dominant weight plus a group of equal small weights on "diagonal" configurations
+        idx = rng.permutation(n)[:min(n, int(rng.integers(3, 8)))]
+        v[idx] = np.sqrt(0.1)
+        v[idx[0]] = np.sqrt(0.5)
+    else:           # stair-case: equal weights in groups
+        idx = rng.permutation(n)[:min(n, 6)]
+        v[idx] = np.array([2, 2, 1, 1, 1, 0.5])[:len(idx)]
+    # apply random local sign flips / permutations of the local basis (keeps the Schmidt spectrum bitwise equal)
+    return v
+
+
+def oracle_structured(rng):
+    import pytenet as ptn
+    d = int(rng.integers(2, 4)); ns = int(rng.integers(2, 5 if d == 2 else 4))
+    v = degenerate_vector(rng, d, ns)
+    if np.linalg.norm(v) == 0:
+        return None
+    tol = float(rng.choice([0.05, 0.12, 0.2, 0.26, 0.3])) / 1.0
+    if tol * ns >= 1:
+        tol = 0.9 / ns / 2
+    r = oracle_from_vector(d, ns, v, tol)
+    if r:
+        return r
+    for mode in ('left', 'right'):
+        m = ptn.MPS.from_vector(d, ns, v, tol=0)
+        r = oracle_compress(m, tol, mode)
+        if r:
+            return r
+    return None
+
+
 def oracle_case(rng):
     cplx = bool(rng.random() < 0.5)
+    if rng.random() < 0.25:
+        return oracle_structured(rng)
     if rng.random() < 0.75:
         from .c03 import rnd_like
         L = int(rng.integers(1, 6))
